@@ -107,7 +107,7 @@ def _plan_boot(ch):
     for _ in range(1 + ch.choice("nops", 7)):
         k = ch.weighted("bop", [("set", 6), ("remove", 1)])
         op = {"op": k, "name": ["v0", "v1", "v2", "v3", "master_volume"][ch.choice("vname", 5)],
-              "dt": ch.pick("dt", [0.0, 0.01, 0.3, 0.9, 1.0, 1.1, 2.0, 30.0])}
+              "dt": ch.pick("dt", [0.0, 0.01, 0.3, 0.9, 1.0, 1.1, 2.0, 30.0, 45.0, 4.0])}
         if k == "set":
             op["value"] = _gen_value(ch, 1)
             if op["name"] == "master_volume":
@@ -119,14 +119,27 @@ def _plan_boot(ch):
             # into a volatile one later is outside the statement
             op["persist"] = op["name"] != "v3"
             op["expire"] = ch.pick("expire", [None, None, 5, 60, 3600, 86400])
+            # a variable is configured once and then set many times (credits: "keep for an hour after the last
+            # change"); only some later sets configure it again
+            op["configure"] = ch.flag("reconfigure", 0.35)
         ops.append(op)
     fate = ch.weighted("fate", [("shutdown", 3), ("crash", 2)])
-    return {"family": "boot", "knobs": knobs, "ops": ops, "fate": fate, "declared": declared,
+    off_time = ch.pick("off_time", [0.0, 3.0, 59.0, 61.0, 3599.0, 3700.0, 90000.0, 20.0, 40.0])
+    if ch.flag("keep_alive", 0.3):
+        # the way the credits mode uses expiry: configured once ("keep for E seconds after the last change"), set again
+        # and again, each set well inside the window of the previous one; switched off for a fraction of E
+        e = ch.pick("ka_expire", [60, 3600, 5])
+        name = "v%d" % ch.choice("ka_name", 3)
+        for i in range(2 + ch.choice("ka_sets", 3)):
+            ops.append({"op": "set", "name": name, "dt": e * ch.pick("ka_dt", [0.5, 0.8, 0.3, 0.95]) if i else 0.3,
+                        "value": ch.pick("ka_value", [2, 4, 4, 0, "x"]), "persist": True, "expire": e,
+                        "configure": i == 0 or ch.flag("ka_reconfigure", 0.15)})
+        off_time = e * ch.pick("ka_off", [0.3, 0.6, 0.9, 1.2, 0.1])
+    return {"family": "boot", "knobs": knobs, "ops": ops, "fate": fate, "declared": declared, "off_time": off_time,
             "after_reboot": [["v0", "v1", "v2", "master_volume"][ch.choice("rname", 4)] for _ in range(ch.choice("n_after", 3))],
             "p_yield": ch.pick("p_yield", [0.0, 0.15, 0.35]),
             "shutdown_dt": ch.pick("shutdown_dt", [0.0, 0.05, 0.5, 1.0, 2.5]),
-            "crash_n": 1 + ch.choice("crash_n", 30),
-            "off_time": ch.pick("off_time", [0.0, 3.0, 59.0, 61.0, 3599.0, 3700.0, 90000.0])}
+            "crash_n": 1 + ch.choice("crash_n", 30)}
 
 
 def _plan_standalone(ch):
@@ -135,16 +148,37 @@ def _plan_standalone(ch):
     ops = []
     ver = 0
     n = 1 + ch.choice("nops", 8)
+    last = {}
+    twins = {1: [True, 1.0], True: [1, 1.0], 0: [False, 0.0], False: [0, 0.0]}
     for _ in range(n):
-        ver += 1
-        ops.append({"op": "save", "mgr": ch.choice("mgr", nm),
-                    "dt": ch.pick("dt", [0.0, 0.0, 0.01, 0.1, 0.3, 0.5, 0.9, 0.99, 1.0, 1.01, 1.2, 2.0, 3.5]),
-                    "data": _gen_payload(ch, ver)})
+        mgr = ch.choice("mgr", nm)
+        dt = ch.pick("dt", [0.0, 0.0, 0.01, 0.1, 0.3, 0.5, 0.9, 0.99, 1.0, 1.01, 1.2, 2.0, 3.5])
+        kind = ch.weighted("save_kind", [("new", 6), ("resave", 1.5), ("twin", 1.5)]) if mgr in last else "new"
+        if kind == "new":
+            ver += 1
+            data = _gen_payload(ch, ver)
+            data["flag"] = ch.pick("flag", [1, True, 0, False, 1.0, 0.0, "x"])
+        else:
+            # the same content handed over again (what set_machine_var(x, x) does), or content that is ==-equal to
+            # the previous one but differs in the type of one value (1 -> True -> 1.0)
+            data = copy.deepcopy(last[mgr])
+            if kind == "twin":
+                cur = data["flag"]
+                key = next((k for k in twins if k == cur and type(k) is type(cur)), None)
+                if key is None:
+                    alts = [1, True] if cur == 1.0 else ([0, False] if cur == 0.0 and not isinstance(cur, str) else [])
+                else:
+                    alts = twins[key]
+                if alts:
+                    data["flag"] = alts[ch.choice("twin_alt", len(alts))]
+        last[mgr] = data
+        ops.append({"op": "save", "mgr": mgr, "dt": dt, "data": data, "kind": kind})
     fate = ch.weighted("fate", [("shutdown", 4), ("crash", 4), ("quiet", 3)])
     p = {"family": "standalone", "knobs": knobs, "nmgr": nm, "ops": ops, "fate": fate,
          "start_delay": ch.pick("start_delay", [0.0, 0.2, 0.99, 1.0, 1.5, 3.0]),
          "p_yield": ch.pick("p_yield", [0.0, 0.15, 0.35, 0.7]),
-         "min_wait": ch.pick("min_wait", [1, 1, 1, 0.3])}
+         "min_wait": ch.pick("min_wait", [1, 1, 1, 0.3]),
+         "post_failure_resave": ch.flag("post_failure_resave", 0.5)}
     if fate == "shutdown":
         p["shutdown_dt"] = ch.pick("shutdown_dt", [0.0, 0.001, 0.05, 0.3, 0.9, 1.0, 1.1, 2.5, 6.0])
     elif fate == "crash":
@@ -295,18 +329,23 @@ def _execute(ctx, plan, world):
             ctx.violation("torn_file", "unparseable", "%s: file on disk does not parse (%s): %r; content=%r"
                           % (n, where, data, fs.files[path][:200]))
             return
-        idx = None
-        for i, v in enumerate(saved[n]):
-            if v.get("__ver") == data.get("__ver"):
-                idx = i
-        if idx is None:
+        cands = [i for i, v in enumerate(saved[n]) if v.get("__ver") == data.get("__ver")]
+        if not cands:
             ctx.violation("torn_file", "unknown_version", "%s: file holds %r which was never saved (%s)"
                           % (n, data.get("__ver"), where))
             return
-        if not _eq(saved[n][idx], data):
+        # the same content may have been handed over more than once: read the file as the earliest matching save that
+        # is not older than what was already seen
+        match = [i for i in cands if _eq(saved[n][i], data)]
+        if not match:
             ctx.violation("not_as_saved", "mismatch", "%s: version %r on disk differs from what was saved (%s): "
-                          "disk=%r saved=%r" % (n, data.get("__ver"), where, data, saved[n][idx]))
+                          "disk=%r saved=%r" % (n, data.get("__ver"), where, data, saved[n][cands[-1]]))
             return
+        newer = [i for i in match if i >= last_seen[n]]
+        idx = newer[0] if newer else match[-1]
+        # identical content handed over again later is already on disk
+        while idx + 1 < len(saved[n]) and _eq(saved[n][idx + 1], data):
+            idx += 1
         if idx < last_seen[n]:
             ctx.violation("went_back", "older_version", "%s: file went back from version index %d to %d (%s)"
                           % (n, last_seen[n], idx, where))
@@ -477,6 +516,11 @@ def _execute(ctx, plan, world):
             for n in names:
                 ver = 1000 + names.index(n)
                 data = {"__ver": ver, "after": "failure"}
+                if plan.get("post_failure_resave") and saved[n]:
+                    # the content whose write may just have failed is handed over once more
+                    data = copy.deepcopy(saved[n][-1])
+                    ver = data["__ver"]
+                    ctx.probe("resave_after_failure")
                 saved[n].append(copy.deepcopy(data))
                 ctx.log("save_all", n, ver, t=loop.time())
                 mgrs[n].save_all(data)
@@ -558,8 +602,11 @@ def _execute_boot(ctx, plan):
     shadow = {}
     orig_save_all = dm_mod.DataManager.save_all
 
+    model_snaps = [None]        # what the model says the persisted subset is at each hand-over (None: not modelled yet)
+
     def save_all_tap(self, data):
         snapshots.append(copy.deepcopy(data))
+        model_snaps.append(copy.deepcopy(persisted()) if env.get("modelled") else None)
         ctx.log("save_all", sorted(data.keys()), t=self.machine.clock.get_time())
         return orig_save_all(self, data)
     dm_mod.DataManager.save_all = save_all_tap
@@ -656,6 +703,7 @@ def _execute_boot(ctx, plan):
         if v["persist"]:
             shadow[n] = {"value": copy.deepcopy(v["value"]), "persist": True, "expire_secs": v["expire_secs"],
                          "timeout": v["timeout"]}
+    configured = {}
     for op in plan["ops"]:
         if env["crashed"]:
             break
@@ -666,17 +714,25 @@ def _execute_boot(ctx, plan):
         now_ts = sim.clock.get_datetime().timestamp()
         name = op["name"]
         shadow_before = copy.deepcopy(persisted())
+        env["modelled"] = True
         if op["op"] == "set":
             ctx.log("set", name, op["persist"], op["expire"], t=sim.now)
-            m.variables.configure_machine_var(name, persist=op["persist"], expire_secs=op["expire"])
-            m.variables.set_machine_var(name, copy.deepcopy(op["value"]))
-            timeout = (op["expire"] + now_ts) if op["expire"] else None
-            shadow[name] = {"value": copy.deepcopy(op["value"]), "persist": op["persist"], "expire_secs": op["expire"],
+            configure = op.get("configure", True) or name not in configured
+            expire = op["expire"] if configure else configured[name]
+            configured[name] = expire
+            timeout = (expire + now_ts) if expire else None
+            shadow[name] = {"value": copy.deepcopy(op["value"]), "persist": op["persist"], "expire_secs": expire,
                             "timeout": timeout}
+            if configure:
+                m.variables.configure_machine_var(name, persist=op["persist"], expire_secs=expire)
+            else:
+                ctx.probe("set_without_reconfigure")
+            m.variables.set_machine_var(name, copy.deepcopy(op["value"]))
         else:
             ctx.log("remove", name, t=sim.now)
-            m.variables.remove_machine_var(name)
             shadow.pop(name, None)
+            configured.pop(name, None)
+            m.variables.remove_machine_var(name)
         # a change of a persistent variable's value is handed to the data manager at once
         if op["op"] == "set" and op["persist"]:
             before = shadow_before.get(name)
@@ -740,14 +796,23 @@ def _execute_boot(ctx, plan):
     sim2.boot()
     ctx.probe("reboot_reload")
     boot_ts = sim2.clock.get_datetime().timestamp()
+    boot_start_ts = boot_ts - (sim2.now - (t_end + plan["off_time"]))
     m2 = sim2.machine
     # mpfconfig.yaml declares master_volume (initial value 0.5) for every machine
     declared_all = dict(declared, master_volume={"initial_value": 0.5})
+    disk_idx = find_snapshot(disk) if disk else None
+    disk_model = model_snaps[disk_idx] if disk_idx is not None and disk_idx < len(model_snaps) else None
     for name, st in (disk or {}).items():
         got = m2.variables.get_machine_var(name)
         present = m2.variables.is_machine_var(name)
         exp = st.get("expire")
-        if exp and exp < boot_ts - 2.0:
+        if disk_model is not None and name in disk_model and _eq(disk_model[name]["value"], st["value"]):
+            # the expiry time is "last set + expire_secs" as the model knows it, not whatever the file says
+            mexp = disk_model[name]["expire"]
+            if (mexp or 0) and exp and abs(mexp - exp) > 1.0:
+                ctx.probe("disk_expiry_differs_from_model")
+            exp = mexp
+        if exp and exp < boot_start_ts - 0.002:      # (2 ms: float noise of the timestamps)
             ctx.probe("expired_var_dropped")
             if present and name in declared_all:
                 # an expired variable that the config declares starts over from its configured initial value
@@ -758,8 +823,8 @@ def _execute_boot(ctx, plan):
             elif present:
                 ctx.violation("expired_var_reloaded", "expiry", "%s expired at %.3f but was reloaded at boot time %.3f "
                               "with value %r" % (name, exp, boot_ts, got))
-        elif exp and exp < boot_ts + 2.0:
-            pass    # boot takes a moment; right at the boundary either outcome is fine
+        elif exp and exp <= boot_ts + 0.002:
+            pass    # expires while MPF boots: either outcome is fine
         else:
             if not present or not _eq(got, st["value"]):
                 ctx.violation("persisted_var_not_reloaded", "reload", "%s=%r was on disk (expire %r, boot at %.3f) but "
